@@ -409,7 +409,14 @@ class Interp:
                 i = 1
             if n.get('hasVar'):
                 vd = [d for d in children(ch[0]) if d['kind'] == 'VarDecl'][0]
-                c = self.truth(env['locals'][vd['id']], n)
+                if env['locals'].get(vd['id']) == ('global', 'nullopt'):
+                    env['locals'][vd['id']] = None
+                # the condition is the declared variable *converted to bool* (operator bool of an optional / smart pointer, a
+                # pointer's null test): evaluate that expression, not the value of the variable
+                if 'optional' in (qt(vd) + dqt(vd)):
+                    c = env['locals'].get(vd['id']) is not None
+                else:
+                    c = self.truth(env['locals'][vd['id']], n)
             else:
                 c = self.truth(self.expr(ch[i], env), ch[i])
             if c:
